@@ -8,6 +8,9 @@ import common, api_common
 from common import Check, run_jobs, TIER
 from lsx import driver
 HOOKS = {'on_end': api_common.oracle_c16}
+HOOKS_LOAD = {'on_end': api_common.oracle_c16_load}
+import c13, catalog       # registers the 'c13' model set (abstract sqlite3 + stat() model) / catalog model for verify()
+CATS = {}
 common.register_models('abs_v2_one', lambda eng: api_common.install_abstract_v2(eng, rows_mode='one'))
 common.register_models('abs_v2_any', lambda eng: api_common.install_abstract_v2(eng, rows_mode='any'))
 try:
@@ -27,10 +30,25 @@ def main():
                 jobs.append(dict(harness='h_api_v2.cpp', ll=ll, entry='h_op', params={'op': op, 'schema': sc, 'wide': 0, 'count': 3}, models=[mdl], known=ck.known, must_reach=['call'],
                                  hooks=('c16', 'HOOKS'), replay='none', allow_throw='none', other_property_kinds=['undef', 'oob', 'ubsan', 'fpcast', 'null', 'overflow', 'uaf', 'shift', 'div0', 'unreachable', 'badfree', 'doublefree', 'terminate', 'trap'], eng_opts={'max_paths': 3000}, label=name))
     if HAVE_V1: jobs += api_v1.jobs_c16(ck)
+    # loading itself and database_exists(): real load_database / detect_* / engine_storage(directory) over the abstract sqlite3 + stat() model of C13, to the point
+    # where the connection is closed again; nothing but reads and ATTACH may be executed (sqlite3_exec included)
+    lld = driver.compile_ir('h_detect.cpp'); driver.load_module(lld)
+    for e, mr, pr in (('h_load', ['load-called', 'loaded', 'statements-checked'], {'poison': 0}), ('h_exists', ['exists-called', 'statements-checked'], {})):
+        jobs.append(dict(harness='h_detect.cpp', ll=lld, entry=e, params=pr, models=['c13'], known=ck.known, must_reach=mr, hooks=('c16', 'HOOKS_LOAD'), replay='none', allow_throw='none',
+                         eng_opts={'max_steps': 3000000, 'max_paths': 40000}, assert_filter='^C16', label=e, max_bugs=12))
+    # verify(): the real validators over the catalog model (checks/catalog.py, undeviated catalog of a natively created library)
+    exe = catalog.build_tool(); outdir = os.path.join(driver.BUILD, 'c16_libs'); created = catalog.create_all(exe, outdir)
+    llv = driver.compile_ir('h_verify.cpp'); driver.load_module(llv)
+    for en in ([10, 17] if TIER == 'quick' else sorted(created)):
+        if en not in created or en > 17: continue
+        CATS[en] = catalog.read_catalog(os.path.join(outdir, str(en)))
+        common.register_models('cat16_%d' % en, (lambda en_: (lambda eng: catalog.install(eng, CATS[en_], [], 'last')))(en))
+        jobs.append(dict(harness='h_verify.cpp', ll=llv, entry='h_verify', params={'schema_enum': en}, models=['cat16_%d' % en], known=ck.known, must_reach=['accepted', 'statements-checked'],
+                         hooks=('c16', 'HOOKS_LOAD'), replay='none', allow_throw='none', eng_opts={'max_steps': 100000000}, assert_filter='^C16', label='verify'))
     ck.add_results(run_jobs(jobs))
     ck.extra['bounds'] = {'operations': sorted(api_common.OBSERVERS_V2.values()) + (api_v1.observer_names() if HAVE_V1 else []),
                           'database_answers': 'every SELECT returns exactly one row (run A) or 0..2 rows (run B) of arbitrary values; blob columns hold the encoding of an arbitrary valid struct',
-                          'outside': 'verify() (schema validators), SQLite-internal effects of read statements, handle state (the accessors are stateless by construction); loading is covered under C13\'s harness only for which files are opened'}
+                          'outside': 'SQLite-internal effects of read statements, handle state (the accessors are stateless by construction)', 'whole_library_observers': 'load_database, database_exists() over the abstract sqlite3 + stat() model (every version triple, file-system state), verify() over the undeviated catalog model'}
     ck.assumptions = ['abstract sqlite3 model: only statements that the library prepares can modify the database; classification by leading SQL keyword (PRAGMA with "=" counts as a write)']
     ck.trusted = ['clang-14 lowering', 'lsx executor', 'lsx/models_sqlite.py', 'z3']
     ck.finish()
